@@ -176,8 +176,18 @@ def exec_scenario(scn):
             if not fulls:
                 return
             found = fulls[op.get("c", 0) % len(fulls)]
-            r["masked"] = True
-            found.metadata.resolved_case_name_short = op.get("name", "Foo")
+            # the documented flow: the caller fills in the resolved name(s) ...
+            name = op.get("name", "Foo")
+            if name == "@parties" and found.metadata.plaintiff and found.metadata.defendant:
+                found.metadata.resolved_case_name = (
+                    f"{found.metadata.plaintiff} v. {found.metadata.defendant}")
+                found.metadata.resolved_case_name_short = found.metadata.defendant
+            else:
+                found.metadata.resolved_case_name_short = name if name != "@parties" else "Foo"
+            # ... which is the harness's own change: take a new snapshot, so that
+            # anything that changes from here on is the library's doing
+            r["d"] = seeds.digest(ser.citations(r["res"]))
+            r["dm"] = r["d"]
             try:
                 doc = Document(plain_text=r["op"].get("text", ""), markup_text="")
                 refs = extract_reference_citations(found, doc)
@@ -403,14 +413,14 @@ class ScenarioGen:
                     y = g.random()
                     op = {"op": "H2", "text": text, "ext": ext,
                           "tok": "hs" if y < 0.35 else "ref" if y < 0.8 else "ac"}
-                    if op["tok"] == "ac":
+                    if op["tok"] == "ac" and g.random() < 0.5:
                         op["ext"] = []
                 elif x < 0.80:
                     op = {"op": "H3", "r": g.randrange(8),
                           "what": g.choice(["resolve", "annotate", "clean"])}
                 elif x < 0.88:
                     op = {"op": "H4", "r": g.randrange(8), "c": g.randrange(4),
-                          "name": g.choice(["Foo", "Smith", "Wingler"])}
+                          "name": g.choice(["Foo", "Smith", "Wingler", "@parties", "@parties", "@parties"])}
                     opsl.append(op)
                     # the documented flow is followed by another extraction
                     op = {"op": "H1", "text": text}
